@@ -125,17 +125,30 @@ func newSA(suite J, keys J, spy bool) (*saObj, error) {
 	get := func(n string) []byte { return []byte(octOf(gox(keys, n))) }
 	k.SK_d, k.SK_ai, k.SK_ar, k.SK_ei, k.SK_er, k.SK_pi, k.SK_pr = get("sk_d"), get("sk_ai"), get("sk_ar"), get("sk_ei"), get("sk_er"), get("sk_pi"), get("sk_pr")
 	var err error
-	k.Prf_d = k.PrfInfo.Init(k.SK_d)
-	k.Integ_i = k.IntegInfo.Init(k.SK_ai)
-	k.Integ_r = k.IntegInfo.Init(k.SK_ar)
-	if k.Encr_i, err = k.EncrInfo.NewCrypto(k.SK_ei); err != nil {
+	// the constructors are handed scratch copies of the key material, wiped once the objects exist (a caller that clears
+	// key buffers after set-up): an object is keyed with the value it was given, not with whatever the buffer holds later
+	var scratch [][]byte
+	tmp := func(b []byte) []byte {
+		c := append([]byte{}, b...)
+		scratch = append(scratch, c)
+		return c
+	}
+	k.Prf_d = k.PrfInfo.Init(tmp(k.SK_d))
+	k.Integ_i = k.IntegInfo.Init(tmp(k.SK_ai))
+	k.Integ_r = k.IntegInfo.Init(tmp(k.SK_ar))
+	if k.Encr_i, err = k.EncrInfo.NewCrypto(tmp(k.SK_ei)); err != nil {
 		return nil, err
 	}
-	if k.Encr_r, err = k.EncrInfo.NewCrypto(k.SK_er); err != nil {
+	if k.Encr_r, err = k.EncrInfo.NewCrypto(tmp(k.SK_er)); err != nil {
 		return nil, err
 	}
-	k.Prf_i = k.PrfInfo.Init(k.SK_pi)
-	k.Prf_r = k.PrfInfo.Init(k.SK_pr)
+	k.Prf_i = k.PrfInfo.Init(tmp(k.SK_pi))
+	k.Prf_r = k.PrfInfo.Init(tmp(k.SK_pr))
+	for _, c := range scratch {
+		for i := range c {
+			c[i] = 0xEE
+		}
+	}
 	if k.Integ_i == nil || k.Integ_r == nil || k.Prf_d == nil {
 		return nil, fmt.Errorf("could not key the SA objects (key sizes?)")
 	}
@@ -267,8 +280,19 @@ func actProtect(e *Env, a J) J {
 		key = o.key
 	}
 	var wire []byte
-	withRand(gs(a, "rand"), func() { wire, err = ike.EncodeEncrypt(m, key, roleOf(a)) })
+	var rr *recReader
+	if spec, isRec := a["rand"].(J); isRec { // a recording / failing source: [mode, seed, failat, chunk]
+		rr = readerOf(spec)
+		withReader(rr, func() { wire, err = ike.EncodeEncrypt(m, key, roleOf(a)) })
+	} else {
+		withRand(gs(a, "rand"), func() { wire, err = ike.EncodeEncrypt(m, key, roleOf(a)) })
+	}
 	obs := errObs(err)
+	if rr != nil {
+		randObs(rr, obs)
+		// a failure delivered by the random source surfaces as an error and no datagram
+		obs["faultok"] = !(rr.failAt >= 0 && rr.reads > rr.failAt) || (err != nil && wire == nil)
+	}
 	// whatever is produced states its own sizes: header length = datagram size; with keys, the first payload is the Encrypted
 	// payload and its length field = datagram size - 28 (a field that wrapped around shows here)
 	obs["lenok"] = true
@@ -318,15 +342,53 @@ func actUnprotect(e *Env, a J) J {
 		m, err := ike.DecodeDecrypt(b, hdr, key, roleOf(a))
 		obs := errObs(err)
 		obs["hdrused"] = used
-		if err == nil && m != nil {
-			obs["msg"] = projMsg(m)
-		}
+		obs["neither"] = err == nil && m == nil // a decoding entry point returns a value or an error
 		if o != nil {
 			obs["decrypts"] = o.log.Decrypts - before.Decrypts
 			obs["macs"] = o.log.Sums - before.Sums
 		} else {
 			obs["decrypts"] = 0
 			obs["macs"] = 0
+		}
+		if err == nil && m != nil {
+			obs["msg"] = projMsg(m)
+		}
+		// "whether or not the receiver pre-parsed the header": the header object may have been parsed from the 28 header
+		// octets alone, or from a receive buffer the caller has reused since -- the datagram is the first argument
+		if used == "pre" {
+			for _, how := range []string{"hdronly", "stale"} {
+				var src []byte
+				if how == "hdronly" {
+					src = append([]byte{}, b[:28]...)
+				} else {
+					src = append([]byte{}, b...)
+				}
+				h2, perr := message.ParseHeader(src)
+				if perr != nil {
+					continue
+				}
+				if how == "stale" {
+					for i := 28; i < len(src); i++ {
+						src[i] = 0xEE
+					}
+				}
+				var o2 J
+				func() {
+					defer func() {
+						if r := recover(); r != nil {
+							o2 = J{"err": false, "panicked": true}
+						}
+					}()
+					m2, err2 := ike.DecodeDecrypt(b, h2, key, roleOf(a))
+					o2 = errObs(err2)
+					if err2 == nil && m2 != nil {
+						o2["msg"] = projMsg(m2)
+					}
+				}()
+				if o2["err"] != obs["err"] || !eqJ(o2["msg"], obs["msg"]) || !eqJ(obs["msg"], o2["msg"]) || o2["panicked"] == true {
+					obs["hdrdiff"] = how
+				}
+			}
 		}
 		return obs
 	})
@@ -353,6 +415,7 @@ type heapState struct {
 	outs     [][]byte
 	outSnaps [][]byte
 	inExpect []byte
+	protSnap any // the payload list of the source message right after it was protected
 }
 
 func (h *heapState) keep(w []byte) {
@@ -521,6 +584,8 @@ func actHeapProtect(e *Env, a J) J {
 	o["insame"] = h.inSame()
 	if err == nil {
 		h.keep(pw)
+		h.out = pw
+		h.protSnap = projChain(h.src.Payloads)
 	}
 	hj := J{}
 	projHeader(h.src.IKEHeader, hj)
@@ -543,6 +608,9 @@ func actHeapProtect(e *Env, a J) J {
 func actHeapObserve(e *Env, a J) J {
 	h := hstate(e)
 	o := J{"orig": projChain(h.orig), "held": projChain(h.held), "heldsame": h.heldSame(), "insame": h.inSame()}
+	// after protection the message holds the Encrypted payload; it stays what it was whatever the caller does with the
+	// datagram that was returned
+	o["protsame"] = h.protSnap == nil || (eqJ(projChain(h.src.Payloads), h.protSnap) && eqJ(h.protSnap, projChain(h.src.Payloads)))
 	hj := J{}
 	projHeader(h.src.IKEHeader, hj)
 	o["srchdr"] = hj
